@@ -551,12 +551,38 @@ def unifier_family(em):
     return out
 
 
+def _returns_once(em, g, fam, depth=0):
+    """a plain (non-generator) helper every return of which is an at-most-once iterator: a once/never iterator object, the
+    result of a unifier, or of another such helper (a hook like ``_unify_same_name``)"""
+    if depth > 3 or g.is_generator:
+        return False
+    rets = [n for n in own_nodes_ordered(g.node) if isinstance(n, ast.Return)]
+    if not rets:
+        return False
+    for n in rets:
+        v = n.value
+        if not isinstance(v, ast.Call):
+            return False
+        cs = em.cg.resolve_callable(g, v.func)
+        if not cs:
+            return False
+        for c in cs:
+            if c.name == '__init__' and c.cls is not None:
+                if iterator_class_kind(em, c.cls) not in ('once', 'never'):
+                    return False
+            elif c in fam or (c.cls and c.name == 'unify') or c in em.binder_family():
+                continue
+            elif not _returns_once(em, c, fam, depth + 1):
+                return False
+    return True
+
+
 def rule_at_most_one_yield(em, rep, rid):
     rep.rule(rid, 'in every member of the unifier family no path passes two yields; a yield inside a loop is allowed '
                   'only when the loop iterates a call to a family member (at most one iteration, by induction); iterator '
                   'classes returned as results succeed at most once')
     fam = unifier_family(em)
-    rep.minimum('unifier family', len(fam), 5)
+    rep.minimum('unifier family', len(fam), 3)
     for f in fam:
         rep.analysed_add('unifier family', f.qname)
         if not f.is_generator:
@@ -574,7 +600,7 @@ def rule_at_most_one_yield(em, rep, rid):
                                 if kind not in ('once', 'never'):
                                     okc = False
                             elif c not in fam and not (c.cls and 'unify' == c.name):
-                                okc = okc and (c in em.binder_family())
+                                okc = okc and (c in em.binder_family() or _returns_once(em, c, fam))
                         if okc:
                             rep.ok(rid, key, 'delegates to %s' % ', '.join(sorted({c.qname for c in cs}) or [norm(v.func)]), f.loc(n))
                         else:
@@ -701,15 +727,17 @@ def rule_arity_guard(em, rep, rid):
     rep.rule(rid, 'in the argument-list unifier a comparison len(a) != len(b) (or ==) dominates every element access and '
                   'its unequal side reaches the exit without a yield; one-sided comparisons (<, >, <=, >=) are reported')
     functor = em.repo.cls('engine', 'Functor')
-    fu = functor.methods.get('unify')
-    if fu is None:
+    if em.repo.lookup_method(functor, 'unify') is None:
         raise AnalysisError('anchor vanished: Functor.unify')
     targets = []
-    for call, callees in em.cg.calls.get(fu, ()):
-        if any('_args' in norm(a) for a in call.args):
-            for c in callees:
-                if c not in targets:
-                    targets.append(c)
+    # wherever the class (or a base class it shares its unify with) hands the two argument lists to a function
+    for k in em.repo.mro(functor):
+        for fu in k.methods.values():
+            for call, callees in em.cg.calls.get(fu, ()):
+                if len([a for a in call.args if norm(a).endswith('._args')]) >= 2:
+                    for c in callees:
+                        if c not in targets:
+                            targets.append(c)
     rep.minimum('argument-list unifiers called from Functor.unify', len(targets), 1)
     for f in targets:
         cfg = em.cfg(f)
